@@ -324,7 +324,11 @@ func c10History(c *Ctx, id string, r *rand.Rand) (string, string) {
 			tok = fmt.Sprintf("local %d %d", ch, v) // the model gets the effective (clamped) value, the code the raw one
 			want := natOfJSON(k.goValue(v))
 			sameValue = cur[ch] == want
-			k.c.UpdateValue(k.goValue(raw))
+			if msg, panicked := safely(func() { k.c.UpdateValue(k.goValue(raw)) }); panicked {
+				c.Violate("a value change by the application panics in the application's goroutine while a subscribed connection is closing (no subscriber gets its event; an unrecovered panic ends the accessory process)", id,
+					append(append([]string{}, toks...), tok), "events to the remaining subscribers", trunc(msg, 300))
+				return strings.Join(toks, ";"), ""
+			}
 			changed = ch
 			if strings.Contains(k.flags, "r") {
 				cur[ch] = want
